@@ -173,6 +173,19 @@ theorem reject_unreachable (s : Bits) (pts : List Nat) (hp : streamPoints s = .o
     decode s = .error .assertion :=
   decode_reject s pts hp i hi st p row hst hpi hrow hnot
 
+/-- what the hypotheses of `reject_unreachable` mean in terms of the encoder: the row of a state is
+exactly the set of points `tribits_to_points` emits from that state (for the eight tribits) … -/
+theorem row_is_emittable (st : Nat) (row : List Nat) (h : rowOf st = .ok row) (p : Nat) :
+    p ∈ row ↔ ∃ t, t < 8 ∧ emit st [t] = .ok [p] :=
+  mem_row_iff_emit st row h p
+
+/-- … and on an encoder output the decoder's state before point `i` is the encoder's own state
+there (0 at the start, else the previous tribit): decoder `last` = encoder `state` -/
+theorem state_is_encoder_state (ts pts : List Nat) (hts : ∀ t ∈ ts, t < 8)
+    (he : tribitsToPoints ts = .ok pts) (i : Nat) (hi : i ≤ ts.length) :
+    ∃ st, (0 :: ts)[i]? = some st ∧ stateBefore pts i = .ok st :=
+  walkState_emit tablesOk ts 0 i pts (by omega) hts hi he
+
 /-- the same at the stage function (any list of points, the loop always runs 49 times) -/
 theorem reject_unreachable_points (pts : List Nat) (i : Nat) (hi : i < 49) (st p : Nat)
     (row : List Nat) (hst : stateBefore pts i = .ok st) (hpi : pts[i]? = some p)
